@@ -46,6 +46,20 @@ CHECKS = {
         "({var}, loop key, svar phrase, echo, {raw}) are bound by the C02 Render oracle which places Escape on exactly those paths.",
    technique="TLA+ specification of HTML escaping + transcription of the escaper checked by TLC; TLC batch oracle over recorded escaper outputs",
    design="6 (C03)"),
+ "C14": dict(
+   text="The four containers are specified as plain sequences (QSeq: two objects, every operation of Array / String / StringStream / "
+        "StringView; action properties 'appends keep the prefix', 'a step changes only its operands'); TLC explores the specification "
+        "exhaustively (items {1,2,3}, length <= 3; thorough <= 4) and every (state, action) edge of the resulting graphs is replayed into "
+        "10 real instantiations (Array<int>, Array<String>, String/StringStream for char, char16_t, char32_t, StringView) under "
+        "ASan/UBSan in SSE2, scalar and AVX2 builds and with the exact-fit growth hook, with NUL terminator, Length<=Capacity, "
+        "First/Last/End and ==/!= checked after each edge. Random histories are validated line by line by TraceQSeq. The SIMD block "
+        "loop + scalar tail of Memory::Copy/SetToZero is a TLA+ transcription (QCopyImpl: exact result, no stray write, reads in "
+        "bounds, termination under fairness) and the real primitives are run for every length x misalignment in three SIMD builds "
+        "with TLC judging every recorded event.",
+   note="bounded exhaustive + sampled histories; accesses beyond the logical size are sensed by ASan with exact-size blocks and hook H1; "
+        "thorough copy grid is 0..96 x 32x32 (the 0..4096 sweep of the statement is not done through TLC).",
+   technique="TLA+ sequence specification checked by TLC; state-graph replay into the C++ containers; TLC trace validation; TLC batch oracle for Memory::Copy",
+   design="6 (C14)"),
 }
 PENDING = "not yet claimed in this revision: its specification and conformance harness are still being built (DESIGN.md section 6 describes the plan)"
 m = {
@@ -60,7 +74,7 @@ m = {
  },
  "engines": [
    {"name": "tlc-runner", "path": "lib/vf.py", "serves_properties": sorted(CHECKS), "kind_free_text": "runs TLC on spec/*.tla (exhaustive, simulation, graph dump, trace validation, batch oracle), builds harnesses from /repo's working tree, filters known findings, writes evidence"},
-   {"name": "graph-walker", "path": "harness/graph.hpp", "serves_properties": ["C13"], "kind_free_text": "spec -> code: replays every (state, action) edge of a TLC state graph into the real object and compares projections"},
+   {"name": "graph-walker", "path": "harness/graph.hpp", "serves_properties": ["C13", "C14"], "kind_free_text": "spec -> code: replays every (state, action) edge of a TLC state graph into the real object and compares projections"},
  ],
  "checks": [],
  "not_applicable": [],
